@@ -132,6 +132,32 @@ Theorem C04_reorg_reannounce le sc t b h t' u k :
          else find_trk (db_trks t') u = Some (restamp k h false).
 Proof. exact (reorg_reannounce le sc t b h t' u k). Qed.
 
+(* handle_reorged_txs itself: per listed uuid that still has a row k, the dispute is handed to the
+   node (reorg_covered: it is in the memo afterwards, `carried`: a K_send was logged unless it was
+   memoized before); rejected dispute or penalty -> the uuid is in the returned list, otherwise the row
+   becomes (h, false) (reorg_rows); uuids without a row are skipped *)
+Theorem C04_reorged_loop_spec sc h us t rej0 rej t' :
+  Inv t -> reorged_loop sc h us t rej0 = Ok rej t' ->
+  rej = rej0 ++ filter (reorg_rejected (eff_status sc t) (db_trks t)) us /\
+  (exists m l, t' = with_carrier (set_db_trks t (reorg_rows (eff_status sc t) h us (db_trks t))) m l) /\
+  carried sc t t' /\
+  (forall uuid k, In uuid us -> find_trk (db_trks t) uuid = Some k -> reorg_covered (eff_status sc t) t' k).
+Proof. exact (reorged_loop_spec sc h us t rej0 rej t'). Qed.
+
+(* rebroadcast_stale_txs itself *)
+Theorem C04_stale_loop_spec sc h us t rej0 :
+  Inv t -> (forall u, In u us -> find_trk (db_trks t) u <> None) ->
+  exists t', stale_loop sc h us t rej0 = Ok (rej0 ++ filter (stale_rejected (eff_status sc t) (db_trks t)) us) t' /\
+    (exists m l, t' = with_carrier (set_db_trks t (stale_rows (eff_status sc t) h us (db_trks t))) m l) /\
+    carried sc t t' /\
+    (forall u k, In u us -> find_trk (db_trks t) u = Some k ->
+                 aget (car_memo t') (t_penalty k) = Some (eff_status sc t (t_penalty k))).
+Proof. exact (stale_loop_spec sc h us t rej0). Qed.
+
+(* the monitor's `completing` is `completes` outside the reorged set *)
+Theorem C04_completes_matches_monitor txids h k : completes txids h [] k = completing h txids k.
+Proof. exact (completes_matches_monitor txids h k). Qed.
+
 (* 5. periodic re-submission *)
 Theorem C04_rebroadcast_cadence le sc t b h t' u k :
   Inv t -> r_block_connected le sc t b h = Ok tt t' ->
@@ -216,6 +242,9 @@ Print Assumptions C04_refund_only_on_completion.
 Print Assumptions C04_r_block_connected_rows.
 Print Assumptions C04_disconnect_marks_exactly.
 Print Assumptions C04_reorg_reannounce.
+Print Assumptions C04_reorged_loop_spec.
+Print Assumptions C04_stale_loop_spec.
+Print Assumptions C04_completes_matches_monitor.
 Print Assumptions C04_rebroadcast_cadence.
 Print Assumptions C04_rebroadcast_restamps_now.
 Print Assumptions C04_resent_every_6th_block.
